@@ -93,16 +93,13 @@ def check(ctx):
         "input columns with a group suffix are constant within that group (enforced for exogenous groups by the interface)",
     ]
     ctx.rule("L", "every reachable scalar rule named <x>_<g> consumes only columns provably constant within g (group aggregates to g or an enclosing unit, g-level inputs, parameter-only rules, rules that are themselves g-constant)")
-    start = datetime.date(2015, 1, 1) if ctx.tier == "quick" else datetime.date(1980, 1, 1)
-    dates = [f for f, _ in s.em.intervals(start)]
+    iv = s.em.intervals(datetime.date(1980, 1, 1))
+    dates = sorted({f for f, _ in iv} | ({l for _, l in iv} if ctx.tier == "thorough" else set()))
     nrules = 0
     for d in dates:
         dag = s.dag(d)
         lv = Levels(repo, dag)
-        if ctx.tier == "thorough":
-            order = [n for n, v in dag.nodes.items() if v.kind == "rule"]
-        else:
-            order, _ = dag.reach()
+        order = [n for n, v in dag.nodes.items() if v.kind == "rule"]  # every rule, reachable or not
         for n in order:
             node = dag.nodes.get(n)
             if node is None or node.kind != "rule" or node.rule.skip_vec:
@@ -121,7 +118,7 @@ def check(ctx):
             if not bad and len(ctx.samples) < 6:
                 ctx.sample({"rule": n, "level": g, "args": {a: sorted(lv.const(a)) for a in args}, "date": str(d)})
     ctx.extra_cov["intervals"] = len(dates)
-    ctx.floor("L", 1500 if ctx.tier == "quick" else 3000)
+    ctx.floor("L", 3000)
 
 
 def _describe(dag, a):
